@@ -153,10 +153,11 @@ def _fn_as_int_function(ctx, name, funcs):
     """a one-expression integer helper as a Python callable over its parameters"""
     fn = ctx.ast.fn(PY, name)
     st = fn.body["stmts"]
-    if len(st) != 1 or st[0].k != "expr_stmt":
-        raise NotInt("%s is not a single expression" % name)
+    if not st or st[-1].k != "expr_stmt" or st[-1].get("semi") or any(x.k != "let" for x in st[:-1]):
+        raise NotInt("%s is not an expression (optionally behind intermediate `let`s)" % name)
     names = [nm for nm, _ in fn.params]
-    e = st[0]["e"]
+    from ..astq import _tnorm
+    e = _tnorm(fn, strip(st[-1]["e"])) if len(st) > 1 else st[-1]["e"]     # intermediate lets inlined
 
     def call(*args):
         return ieval(e, dict(zip(names, args)), funcs)
@@ -607,20 +608,34 @@ def ob_drivers(ctx, res):
         fn = ctx.ast.fn(PY, name)
         t = up(fn.body)
         # the library is queried with a range inside [0, length] on both ends (u32 casts of negative numbers wrap)
-        cl = [x for x in walk_no_nested_fn(fn.body) if x.k == "let" and x["pat"].k == "p_tuple" and [up(e) for e in x["pat"]["elems"]] == ["intervals_start", "intervals_end"]]
-        okc = False
-        if len(cl) == 1 and strip(cl[0]["init"]).k == "tuple":
-            lo, hi = [_sq(up(e)) for e in strip(cl[0]["init"])["elems"]]
-            okc = lo in ("start.max0asu32", "start.max0.minlengthasu32", "start.minlength.max0asu32") and hi in ("end.minlength.max0asu32", "end.max0.minlengthasu32")
-            if lo == "start.max0asu32" and hi == "end.minlengthasu32":
-                res.fail("drivers/%s/clamp-neg-end" % name, cl[0],
-                         "the queried end is min(end, length) cast to u32 without a lower bound: for a range entirely before the chromosome (end < 0) it wraps to ~4.29e9")
-                continue
-        if not okc:
-            res.fail("drivers/%s/clamp" % name, fn, "the library must be queried with (max(start, 0), max(min(end, length), 0))")
+        # every query's (start, end) arguments, as expressions of (start, end, length), must be (max(start,0), max(min(end,length),0)): decided by R-EQUIV
+        from ..rules import equiv as EQ
+        qs0 = [c for c in walk_no_nested_fn(fn.body) if c.k == "mcall" and c["method"] in ("get_interval", "get_zoom_interval")]
+        roles = {"S": "start", "E": "end", "L": "length"}
+        verdict = None
+        for c in qs0:
+            if len(c["args"]) < 3:
+                verdict = ("undecided", "query with %d arguments" % len(c["args"]))
+                break
+            qa = EQ.equiv(fn, c["args"][1], roles, lambda e: max(e["S"], 0), domain=range(-2, 4), pre=lambda e: e["L"] >= 1 and e["S"] < e["E"])
+            qb = EQ.equiv(fn, c["args"][2], roles, lambda e: max(min(e["E"], e["L"]), 0), domain=range(-2, 4), pre=lambda e: e["L"] >= 1 and e["S"] < e["E"])
+            for q, what in ((qa, "start"), (qb, "end")):
+                if q[0] == "differs" and verdict is None:
+                    verdict = ("differs", what, q, c)
+                elif q[0] == "unknown" and verdict is None:
+                    verdict = ("undecided", q[1])
+        if verdict and verdict[0] == "differs":
+            _, what, q, c = verdict
+            if what == "end" and q[2] < 0:
+                res.fail("drivers/%s/clamp-neg-end" % name, c,
+                         "the queried end is %s for %s (required %s): without a lower bound a range entirely before the chromosome (end < 0) wraps to ~4.29e9 when cast to u32" % (q[2], q[1], q[3]))
+            else:
+                res.fail("drivers/%s/clamp" % name, c, "the library must be queried with (max(start, 0), max(min(end, length), 0)); the queried %s is %s for %s, required %s" % (what, q[2], q[1], q[3]))
             continue
+        if verdict:
+            res.undecided("drivers/%s/clamp" % name, fn, "queried range not decided (%s)" % verdict[1])
         qs = [c for c in walk_no_nested_fn(fn.body) if c.k == "mcall" and c["method"] in ("get_interval", "get_zoom_interval")]
-        bad = [c for c in qs if [up(strip(a)) for a in c["args"][1:3]] != ["intervals_start", "intervals_end"]]
+        bad = []
         if len(qs) != 3 or bad:
             res.fail("drivers/%s/query" % name, fn, "all three queries (zoom, binned, per-base) must use the clamped range")
             continue
